@@ -59,6 +59,11 @@ let rec parse_tree (s:string) (i:int ref) : elem =
   end
 
 let z4 = [Z0; Z0; Z0; Z0]
+(* the memory block of the k-th element, as the harness lays it out *)
+let elem_block (k:int) (b:z list) : z list =
+  let magic = bytes_of_hex "2362756e646c6500" in
+  let is_bun = List.length b >= 8 && List.filteri (fun i _ -> i < 8) b = magic in
+  if is_bun then b @ z4 else if k mod 2 = 1 then b @ (let j = z_of_int 170 in [j; j; j; j]) else b
 (* builds bottom-up with the model of rtosc_bundle, one reader record per bundle (DFS) *)
 let rec build (e:elem) (buf:Buffer.t) : z list =
   match e with
@@ -67,10 +72,10 @@ let rec build (e:elem) (buf:Buffer.t) : z list =
     let sub = Buffer.create 64 in
     let kb = List.map (fun k -> build k sub) kids in
     let total = List.fold_left (fun a b -> a + 4 + List.length b) 16 kb in
-    let mems = List.map (fun b -> b @ z4) kb in
+    let mems = List.mapi elem_block kb in
     let (r, b) = get (bundle (fill total) tt mems) in
     let ri = zi r in
-    let m = b @ z4 in
+    let m = b in
     let cnt = zi (get (bundle_elements m r)) in
     let es = List.map (fun i ->
         Printf.sprintf "%s:%s" (zs (get (bundle_fetch m (z_of_int i)))) (zs (get (bundle_size m (z_of_int i))))) (range 0 cnt) in
@@ -100,7 +105,7 @@ let () = each_line (fun line ->
       let b = match bo with Some b -> b | None -> [] in
       Printf.sprintf "p=%s r=%s b=%s V=same A=same" (zs need) (zs r) (hex_of_bytes b)
     | "bcap" :: cap :: tt :: es :: _ ->
-      let mems = if es = "-" then [] else List.map (fun h -> bytes_of_hex h @ z4) (String.split_on_char ',' es) in
+      let mems = if es = "-" then [] else List.mapi (fun k h -> elem_block k (bytes_of_hex h)) (String.split_on_char ',' es) in
       let (r, b) = get (bundle (fill (int_of_string cap)) (z_of_string tt) mems) in
       Printf.sprintf "r=%s b=%s" (zs r) (hex_of_bytes b)
     | "bun" :: tr :: _ ->
